@@ -206,7 +206,7 @@ fn check_image(req: &FmtReq, img: &Store) -> Result<Geom, String> {
         }
     }
     // root directory
-    let (root_off, root_len) = if g.width == 32 { (g.cluster_off(raw.root_clus), g.cluster_size()) } else { (g.root_off(), g.root_bytes()) };
+    let (root_off, root_len) = if g.width == 32 { (g.cluster_off(raw.root_clus), g.cluster_size()) } else { (g.root_off(), g.root_slots() as u64 * 32) };
     let root = rdv(img, root_off, root_len as usize);
     let mut start = 0usize;
     if let Some(l) = req.label {
